@@ -17,7 +17,8 @@ RULE = ("(a) enumerated: parent Signal width w in 1..W (W=6 quick, 8 thorough), 
         "in-range non-negative unit-step slice of a Signal; distinct by (parent, index) text.")
 ASSUME = ["Python list indexing is the oracle", "acceptance is required only for in-range int indices and non-empty unit-step "
           "ranges with explicit bounds in [-w,w]; strided or out-of-range-bound slices may be rejected, but if accepted must "
-          "select what Python selects", "widths of slices of port/bundle references are only queried after elaboration"]
+          "select what Python selects", "widths of slices of port/bundle references are only queried after elaboration",
+          "late sizing (a Signal's width assigned after it was concatenated) is generated for concatenations of whole signals only"]
 
 _H = {}
 
@@ -335,7 +336,57 @@ def check_case(case):
     return out, {"kind": kind, "accepted": accepted, "rejected_at": rejected_at}
 
 
+def check_late(case):
+    """{"late": true, "widths", "parent": concatenation tree over whole signals, "resize": {sig: new width}, "read_first": bool}:
+    a bus declared first and sized later. The concatenation (its width possibly asked for before the resize) is the list
+    concatenation of its parts as they are afterwards: reported width and exported bits."""
+    h = H()["h"]
+    fails = []
+    c = Ctx(case["widths"])
+    root = c.build(case["parent"])
+    nodes = []
+
+    def walk(obj, e):
+        if e[0] == "cat":
+            nodes.append((obj, e))
+            for po, pe in zip(obj.parts, e[1]):
+                walk(po, pe)
+    walk(root, case["parent"])
+    if case.get("read_first"):
+        for obj, _ in nodes:
+            obj.width
+    neww = dict(case["widths"], **case["resize"])
+    for name, w in case["resize"].items():
+        c.objs[name].width = w
+    for obj, e in nodes:
+        want = len(ref_bits(e, neww))
+        try:
+            got = obj.width
+        except Exception as ex:
+            fails.append(("late_sizing:width_raises:%s" % type(ex).__name__, "width of %s after resizing %s raised %r" % (e, case["resize"], ex)))
+            continue
+        if got != want:
+            fails.append(("late_sizing:concat_width_stale", "Concat %s reports width %d after its parts were resized to %s; its parts hold %d bits" % (json.dumps(e), got, case["resize"], want)))
+    if not fails:
+        want = ref_bits(case["parent"], neww)
+        try:
+            X = h.ExternalModule(name="TL%d" % len(want), port_list=[h.Input(name="a", width=len(want))], domain="verif")
+            c.m.add(X()(a=root), name="dut")
+            pkg = h.to_proto(c.m)
+            mod = pkg.modules[-1]
+            sigw = {sg.name: sg.width for sg in mod.signals}
+            inst = [i for i in mod.instances if i.name == "dut"][0]
+            got = [tuple(b) for b in reversed(pkgread.expand_target(inst.connections[0].target, sigw))]
+            if got != [tuple(b) for b in want]:
+                fails.append(("late_sizing:wrong_bits", "concatenation %s with parts resized to %s exported %s, list concatenation gives %s" % (json.dumps(case["parent"]), case["resize"], got, want)))
+        except Exception as ex:
+            fails.append(("late_sizing:export_raises:%s" % type(ex).__name__, "concatenation %s with parts resized to %s: %s" % (json.dumps(case["parent"]), case["resize"], str(ex)[-200:])))
+    return fails, {"kind": "late_sizing", "accepted": True}
+
+
 def nontrivial(case):
+    if case.get("late"):
+        return True
     if case["parent"][0] != "sig":
         return True
     idx = case["index"]
@@ -348,7 +399,7 @@ def nontrivial(case):
 
 def _eval(res, case):
     try:
-        fails, info = check_case(case)
+        fails, info = check_late(case) if case.get("late") else check_case(case)
     except Exception:
         import traceback
         res.harness_error("check crashed on %s: %s" % (json.dumps(case)[:300], traceback.format_exc()[-1500:]))
@@ -360,7 +411,9 @@ def _eval(res, case):
         feats.append("strided_parent")
     if info["kind"] == "may_reject":
         feats.append("may_reject_" + ("accepted" if info["accepted"] else "rejected"))
-    res.case(case, nontrivial(case), feats, key=json.dumps([case["parent"], case["index"], case["widths"]], sort_keys=True))
+    if case.get("late"):
+        feats.append("width_read_before_resize" if case.get("read_first") else "width_first_read_after_resize")
+    res.case(case, nontrivial(case), feats, key=json.dumps([case["parent"], case.get("index"), case["widths"], case.get("resize"), case.get("read_first")], sort_keys=True))
 
 
 def box_cases(W):
@@ -456,6 +509,20 @@ def shard(idx, n, tier):
             idx = [draw(bound), draw(bound), draw(st.sampled_from([None, 1, 2, 3, -1, -2, -3, pw, -pw]))]
         return {"widths": widths, "parent": p, "index": idx}
 
+    @st.composite
+    def late(draw):
+        widths = {"s": draw(st.integers(1, 6)), "t": draw(st.integers(1, 6)), "u": draw(st.integers(1, 4))}
+
+        def tree(depth):
+            if depth >= 2 or (depth > 0 and draw(st.integers(0, 2)) > 0):
+                return ["sig", draw(st.sampled_from(["s", "t", "u"]))]
+            return ["cat", [tree(depth + 1) for _ in range(draw(st.integers(1, 3)))]]
+        p = tree(0)
+        used = sorted({b[0] for b in ref_bits(p, widths)})
+        names = draw(st.lists(st.sampled_from(used), min_size=1, max_size=2, unique=True))
+        resize = {nm: draw(st.integers(1, 8).filter(lambda w, nm=nm: w != widths[nm])) for nm in names}
+        return {"late": True, "widths": widths, "parent": p, "resize": resize, "read_first": draw(st.integers(0, 3)) > 0}
+
     batch = []
 
     def flush():
@@ -470,7 +537,7 @@ def shard(idx, n, tier):
     @hypothesis.seed(env.subseed(PID, idx))
     @settings(max_examples=nex, database=None, deadline=None, derandomize=False,
               suppress_health_check=list(HealthCheck), phases=[Phase.generate], report_multiple_bugs=False)
-    @given(nested())
+    @given(st.one_of(nested(), nested(), nested(), nested(), nested(), nested(), nested(), nested(), nested(), late()))
     def run(case):
         batch.append(case)
         if len(batch) >= 300:
@@ -482,7 +549,7 @@ def shard(idx, n, tier):
 
 
 def replay(case):
-    r = par.in_child(lambda c: check_case(c)[0], case)
+    r = par.in_child(lambda c: (check_late(c) if c.get("late") else check_case(c))[0], case)
     if par.is_exc(r):
         raise RuntimeError(r[2])
     return r
